@@ -1,4 +1,8 @@
-"""Per-property configuration of the check driver."""
+"""Per-property configuration of the check driver: one file tools/props/Cxx.py
+per claimed property, each defining CONF = dict(cmd=<harness command under
+harness/cmd>, props=<Props file>, glue=<Extract/GlueCxx.v, default by id>,
+rule, assumptions, trusted, technique, level_text, level_note, ...)."""
+import importlib.util, os
 
 # axioms declared by Coq's standard library that the brief allows, provided they are named
 STD_AXIOMS = {
@@ -18,46 +22,17 @@ COMMON_TRUSTED = [
     "Go compiler/runtime semantics (int64 wrap-around, truncating division, slice bounds) as written into the model",
 ]
 
-PROPS = {
-    "C04": dict(
-        cmd="c04", props="Props/C04.v",
-        rule="(time, reference) pairs: references 1970-2450 dense around the NTP era boundaries, time-reference distance at the window edges +-2^31 s, near 0 and random, nanoseconds at 0/999999999/next to every change of the 2^-32 fraction/random; a case is non-trivial when time and reference lie in different NTP eras inside the window; distinct = distinct (kind, input)",
-        assumptions=[
-            "time.Time modelled as unbounded nanoseconds since the Unix epoch (Unix() = floor division, Nanosecond() = remainder)",
-            "reference times from 1970 up to Unix second 2^60; the window is taken on whole seconds, as the code uses the reference",
-        ],
-        trusted=["modelled, not verified: time.Unix / Time.Unix / Time.Nanosecond of the Go standard library"],
-        technique="Coq proof (lia over Euclidean division) of the round-trip and order theorems on a Gallina model of Time64FromTime/TimeFromTime64 with explicit int64 wrap; model tied to the code by differential execution of the extracted model against the exported Go functions",
-        level_text="Machine-checked theorems for all reference times 1970..Unix second 2^60 and all times in the +-2^31 s window at nanosecond granularity (no sampling); the model is tied to the Go code by running both on era-boundary-dense inputs every run, and the property oracle is evaluated on the implementation's own outputs",
-        level_note="Trusted: Coq kernel, the hand-written model (validated by the correspondence run), extraction with ExtrOcamlBasic, the harness. Window taken on whole seconds as the code does. No axioms (Closed under the global context).",
-    ),
-}
+PROPS = {}
+_d = os.path.join(os.path.dirname(os.path.abspath(__file__)), "props")
+for _f in sorted(os.listdir(_d)):
+    if _f.endswith(".py") and _f[0] == "C":
+        _spec = importlib.util.spec_from_file_location("props_" + _f[:-3], os.path.join(_d, _f))
+        _m = importlib.util.module_from_spec(_spec)
+        _spec.loader.exec_module(_m)
+        _c = dict(_m.CONF)
+        _c.setdefault("glue", "Extract/Glue%s.v" % _f[:-3])
+        _c.setdefault("props", "Props/%s.v" % _f[:-3])
+        PROPS[_f[:-3]] = _c
 
-PROPS["C18"] = dict(
-    cmd="c18", props="Props/C18.v",
-    rule="int64 nanosecond counts (extremes, multiples of a second +-1, powers of two +-2, random) for the timeval split; all-range and boundary scaled-ppm values; drift (drift, interval) pairs; 48-bit CSPTP seconds x nanoseconds incl. range ends and out-of-range times; 64-bit correction fields; (t0,t2,theta,delta,c1,c3) tuples for the offset/delay formulas. Non-trivial: negative nanosecond counts, non-zero in-range ppm values, non-zero drift, wire round trips, negative correction fields with sub-ns bits, formula recovery cases; distinct = distinct (kind, input)",
-    assumptions=[
-        "float64 arithmetic of Go on amd64 = IEEE-754 binary64 round-to-nearest-even without FMA contraction (Flocq BinarySingleNaN); int64(float64) = CVTTSD2SI (-2^63 when out of range)",
-        "CSPTP formula theorems: all magnitudes below 2^60 ns so that no int64 operation wraps (the property's 'combinations that do not overflow')",
-    ],
-    trusted=["Flocq 4 (IEEE754.BinarySingleNaN/Binary/Bits) as the float64 semantics; theorems of this property that are purely integer are closed under the global context",
-             "modelled, not verified: golang.org/x/sys/unix.Timeval layout, time.Duration.Seconds, Go float<->int conversions"],
-    technique="Coq proofs (lia with Euclidean division; Flocq for the float clauses) over a Gallina model of TimevalFromNsec, ScaledPPM/Freq, SystemClock.Drift and the csptp conversion/offset formulas; differential execution of the extracted model (bit-exact floats) against the Go functions",
-    level_text="Theorems quantify over all int64 nanosecond counts, all 48-bit/ns CSPTP timestamps, all 64-bit correction fields and all non-overflowing offset/delay combinations; the float functions are modelled bit-exactly with Flocq and compared bit-for-bit with Go every run; the property oracle (normalisation, +-1 ulp ppm round trip, floor of correction fields, exact recovery of offset/delay) is evaluated on the implementation's outputs",
-    level_note="Trusted: Coq kernel, Flocq as float semantics, hand-written model validated by the correspondence run, extraction, harness. The +-1 ppm round-trip clause is proved by Flocq error analysis where listed in the evidence theorems, otherwise enforced by the oracle on the sampled range only (named _partial).",
-)
-
-PROPS["C02"] = dict(
-    cmd="c02", props="Props/C02.v",
-    rule="slices of n = 0..40 int64 offsets (mostly n <= 12) around a common base with clustered duplicates, odd values, +-(2^62-1) extremes; up to floor((n-1)/3) positions tagged arbitrary and placed all-high / all-low / split / random; random permutations of the same multiset; measurement variants with timestamps and error flags. Non-trivial: n >= 4 with at least one arbitrary value outside the range of the correct ones (or a permuted copy / errored measurement with n >= 4); distinct = distinct (kind, input)",
-    assumptions=[
-        "slices.Sort / slices.SortFunc return a sorted permutation (their contract); for measurements the model is relational in the order of equal offsets",
-        "time.Time as unbounded nanoseconds; Time.Sub saturates, Time.Add exact",
-    ],
-    trusted=["modelled, not verified: Go's slices.Sort/SortFunc (pdqsort) by contract; the observed slice after each call is checked to be a sorted permutation"],
-    technique="Coq proof: counting argument on sorted tagged lists (among the f+1 smallest and the f+1 largest there is a correct value), uniqueness of sorted permutations, int64 no-overflow lemma below 2^62; relational model for the unstable measurement sort; differential execution against timemath/measurements",
-    level_text="Theorems hold for every n >= 1, every multiset with |v| < 2^62, every placement of <= floor((n-1)/3) arbitrary values and every permutation; measurement theorems hold for every sorted permutation the unstable sort may produce. Model tied to the Go functions by running both on adversarially placed inputs; the containment/permutation/sortedness oracle is evaluated on the implementation's outputs",
-    level_note="Trusted: Coq kernel, model validated by the correspondence run, extraction, harness; slices.Sort by contract (checked on every observed output). No axioms.",
-)
-
+# properties not claimed, with the reason (none: every property is meant to be claimed)
 NOT_YET = {}
